@@ -592,6 +592,7 @@ func runLca(e *hx.Env, m *hx.Model, c dagCase) {
 		panic(err)
 	}
 	m.Ask("reset")
+	early := map[[2]int]string{}
 	for i, ps := range c.Parents {
 		if err := w.addCommit(i, ps, c.Salt); err != nil {
 			e.Rep.Violate("commit-error", fmt.Sprintf("creating commit %d failed: %v", i, err), c)
@@ -605,7 +606,26 @@ func runLca(e *hx.Env, m *hx.Model, c dagCase) {
 			e.Rep.Disagree(c, "ok", r, "commit")
 			return
 		}
+		// stability (C19 lca_stable / ff_stable): merge bases computed while the graph is still growing
+		// are compared with the same calls on the finished graph
+		if i >= 1 {
+			for _, pr := range [][2]int{{i, i - 1}, {i - 1, i / 2}, {i / 2, i}} {
+				if _, seen := early[pr]; seen || pr[0] == pr[1] {
+					continue
+				}
+				h, ok, err := datas.FindCommonAncestor(ctx, w.cms[pr[0]], w.cms[pr[1]], w.vr, w.vr, w.ns, w.ns)
+				early[pr] = showLca(h, ok, err)
+			}
+		}
 	}
+	for pr, r0 := range early {
+		h, ok, err := datas.FindCommonAncestor(ctx, w.cms[pr[0]], w.cms[pr[1]], w.vr, w.vr, w.ns, w.ns)
+		e.Rep.Evaluations++
+		if r1 := showLca(h, ok, err); r1 != r0 {
+			e.Rep.Violate("lca-unstable", fmt.Sprintf("merge base of (%d,%d) was %s when commit %d was the newest, %s after %d commits", pr[0], pr[1], r0, max(pr[0], pr[1]), r1, len(c.Parents)), c)
+		}
+	}
+	e.Rep.Hit("lca-stability-pairs")
 	b, err := w.bruteForce()
 	if err != nil {
 		e.Rep.Violate("parents-read-error", err.Error(), c)
